@@ -171,13 +171,16 @@ def file_obligation(variant, final_newline=True):
         v_se2a, v_xy, v_se3, v_xyz, v_se2b = vtoks(4), vtoks(3), vtoks(8, unit=(4, 5, 6, 7)), vtoks(4), vtoks(4)
         v_lonely1, v_lonely2 = vtoks(3), vtoks(8, unit=(4, 5, 6, 7))       # vertices that no edge refers to
         half = [v_se2b[0], v_se2a[0]] + toks(3 + 6)      # an edge that the file lists twice (two identical half-information edges)
+        # the same parameter id is defined a second time further down: an edge is given the definition in force *at its line*
+        pvals2 = [pvals[0]] + toks(7, unit=(3, 4, 5, 6))
         seq = [("PARAMS_SE3OFFSET", pvals), ("junk", "# a comment line" + end), ("junk", "# another comment line" + end), ("VERTEX_SE2", v_se2a), ("blank", end),
                ("VERTEX_XY", v_xy), ("junk", "FIX 0" + end), ("VERTEX_SE3:QUAT", v_se3), ("blank", "   " + end), ("VERTEX_XY", v_lonely1),
                ("VERTEX_TRACKXYZ", v_xyz), ("EDGE_SE2", [v_se2b[0], v_se2a[0]] + toks(3 + 6)), ("junk", "VERTEX_SE2_EXTRA 1 2 3 4" + end), ("junk", "FIX 7" + end),
                ("EDGE_SE3_TRACKXYZ", [v_se3[0], v_xyz[0], pvals[0]] + toks(3 + 6)), ("PARAMS_SE2OFFSET", p2vals),
                ("EDGE_SE2_XY", [v_se2a[0], v_xy[0]] + toks(2 + 3)), ("junk", "EDGE_SE2X 1 2" + end),
                ("EDGE_SE3:QUAT", [v_se3[0], v_se3[0]] + toks(7 + 21, unit=(3, 4, 5, 6))), ("VERTEX_SE2", v_se2b), ("EDGE_SE2", half),
-               ("VERTEX_SE3:QUAT", v_lonely2), ("EDGE_SE2", half)]
+               ("VERTEX_SE3:QUAT", v_lonely2), ("EDGE_SE2", half), ("PARAMS_SE3OFFSET", pvals2),
+               ("EDGE_SE3_TRACKXYZ", [v_se3[0], v_xyz[0], pvals[0]] + toks(3 + 6))]
         order = []
         for tag, vals in seq:
             if tag == "junk":
@@ -214,8 +217,15 @@ def file_obligation(variant, final_newline=True):
         if not isinstance(ps, dict) or len(ps) != 2:
             raise ObFail("2 parameter lines in the file, %r parameters in the graph" % (len(ps) if isinstance(ps, dict) else ps))
         lm = [e for e in es if e.cls == "EdgeLandmark" and isinstance(ga(e, "offset", None), Pose) and ga(e, "offset").cls == "PoseSE3"]
-        if len(lm) != 1 or ga(lm[0], "offset") is not ga(ps[it.hashable(("PARAMS_SE3OFFSET", pvals[0]), None)], "value"):
+        if len(lm) != 2:
+            raise ObFail("2 SE(3) landmark edge lines in the file, %d such edges in the graph" % len(lm))
+        if ga(lm[1], "offset") is not ga(ps[it.hashable(("PARAMS_SE3OFFSET", pvals[0]), None)], "value"):
             raise ObFail("the SE(3) landmark edge is not linked to the offset parameter it names")
+        for e_, pv, what in ((lm[0], pvals, "first"), (lm[1], pvals2, "second")):
+            off = ga(e_, "offset")
+            if not all(eq_poly(it, a, b) for a, b in zip(off.data[:3], pv[1:4])):
+                raise ObFail("the landmark edge that follows the %s definition of its offset parameter does not carry that definition's "
+                             "offset (a parameter id defined twice: each edge gets the definition in force at its own line)" % what)
         warnings = [e for e in it.events if e[0] == "log"]
         if len(warnings) != junk_count:
             raise ObFail("%d unrecognised lines, %d warnings" % (junk_count, len(warnings)))
